@@ -22,21 +22,21 @@ NA = {
 TECH = "deterministic simulation with fault injection: seeded search over operation/fault histories against an executable reference model, ddmin-minimised replay files"
 
 TEXT = {
-    "C02": ("e2", "Seeded histories of comparison constraints on one live PCBO interleaved with copies, refreshes, info round trips and objective edits; after every step the delta observed in the live model is checked exactly (truth table over the constraint's variables and fresh ancillas) for F>=0, min_a F=0 on satisfying x, F>=lam elsewhere, ancilla freshness and conservation H = f + sum F_i; sampling, not proof.",
-            "Trusts RefPoly truth tables (exact integer arithmetic); bounded to <=4 variables per constraint, <=6 slack ancillas, <=5 constraints per history.", "DESIGN.md §3.2, §4 C02"),
+    "C02": ("e2", "Seeded histories of comparison constraints on one live PCBO (incl. shortcut shapes and their near misses, skewed ranges, weights in the ten thousands with 16 slack bits, live model objects as arguments) interleaved with copies, refreshes, info round trips, user-pinned mappings and objective edits; after every step the delta observed in the live model is checked exactly (truth table over the constraint's variables and fresh ancillas) for F>=0, min_a F=0 on satisfying x, F>=lam elsewhere, ancilla freshness and conservation H = f + sum F_i; sampling, not proof.",
+            "Trusts RefPoly truth tables (exact integer arithmetic); bounded to <=4 variables per constraint, <=6 slack ancillas (<=17 for two-variable wide constraints), <=5 constraints per history (<=60 in deep runs).", "DESIGN.md §3.2, §4 C02"),
     "C03": ("e2", "As C02 on a live PCSO with spin assignments, including the ancilla-counter hand-off to the helper PCBO that is only observable from the second ancilla-bearing constraint of a history, and num_ancillas covering every ancilla present.",
             "Same trusted base and bounds as C02.", "DESIGN.md §3.2, §4 C03"),
-    "C05": ("e1", "Seeded histories of arithmetic, in-place, reflected and item-edit operations on a pool of live models/dicts/scalars (self-aliasing and mid-operation KeyErrors included) tracked against exact reference polynomials; after every step every written object must equal its reference and be stored canonically, every other object must be unchanged, and value functions must equal direct evaluation.",
+    "C05": ("e1", "Seeded histories of arithmetic, in-place, reflected and item-edit operations on a pool of live models/dicts/scalars (self-aliasing, mid-operation KeyErrors, big-integer runs, divisors whose reciprocal is not a binary fraction) tracked against exact reference polynomials; after every step every written object must equal its reference and be stored canonically, every other object must be unchanged, and value functions must equal direct evaluation.",
             "Trusts RefPoly; integer/dyadic coefficients so float arithmetic is exact; degree <= 4, <= 6 labels per run.", "DESIGN.md §3.1, §4 C05"),
-    "C08": ("e2", "End-to-end workflow oracle at the end of seeded constraint histories (comparison + logical constraints, boolean and spin) with weights above max f - min f: solve_bruteforce, every minimiser of the penalised model and of its to_pubo/to_puso/to_qubo/to_quso forms must convert to a feasible assignment attaining the reference constrained optimum.",
+    "C08": ("e2", "End-to-end workflow oracle at the end of seeded constraint histories (comparison + logical constraints, boolean and spin) with weights above max f - min f (also barely above, also objectives offset by 2^36), conversions taken before or after the solver call and across a re-pinned mapping: solve_bruteforce, every minimiser of the penalised model and of its to_pubo/to_puso/to_qubo/to_quso forms must convert to a feasible assignment attaining the reference constrained optimum.",
             "Trusts RefPoly truth tables and the reference feasibility predicate; <=4 original variables, <=14 variables in any reduced form.", "DESIGN.md §3.2, §4 C08"),
-    "C11": ("e4", "Seeded call histories of the four annealers on the real C extension under simulator-owned random streams (recorded real PCG, scripted draws, scripted raw 32-bit generator words, extreme, threshold-hugging), clocks and heap poison, with live model objects edited between calls, user-pinned mappings, omitted/default arguments and very large models from small-stack threads; every result is checked exactly (count, key set, domain, spin flag, value = model(state) incl. offset, best, arguments unchanged).",
+    "C11": ("e4", "Seeded call histories of the four annealers on the real C extension under simulator-owned random streams (recorded real PCG, scripted draws, scripted raw 32-bit generator words, extreme, threshold-hugging), clocks and heap poison, with live model objects edited between calls, refreshed and scribbled-over accessors, user-pinned mappings, coefficient units from 2^-45 to 2^31, omitted/default arguments and very large models from small-stack threads; every result is checked exactly (count, key set, domain, spin flag, value = model(state) incl. offset, best, arguments unchanged).",
             "Trusts RefPoly evaluation; integer/dyadic couplings; models of <= 8 variables, histories of <= 24 calls.", "DESIGN.md §3.4, §4 C11"),
-    "C12": ("e4", "Decision-exact refinement of the C kernels against a reference Metropolis chain driven by the kernel's own recorded draws (both visiting orders, scripted draws hugging every acceptance threshold, infinite and zero temperatures, schedules in every container type, live models edited between calls), zero-temperature monotonicity, seeded twin calls across simulated clock jumps, and a Bernstein-bounded distribution test against the exact k-sweep chain with the real PCG stream.",
+    "C12": ("e4", "Decision-exact refinement of the C kernels against a reference Metropolis chain driven by the kernel's own recorded draws (both visiting orders, scripted draws hugging every acceptance threshold, infinite and zero temperatures, schedules in every container type, live models edited between calls), zero-temperature monotonicity, seeded twin calls across simulated clock jumps and from other execution contexts (fresh thread, deeper C stack), and a Bernstein-bounded distribution test against the exact k-sweep chain with the real PCG stream.",
             "Trusts RefPoly energies and the 8-state exact transition matrices; statistical cell false-alarm probability <= 1e-10; refinement limited to integer-indexed Matrix inputs with a given initial state.", "DESIGN.md §3.4, §4 C12"),
-    "C13": ("e3", "Seeded search over histories of list operations on live AnnealResults objects (empty operands, self-arguments, ties, removal of the current best, one-shot and failing iterables) against a plain-list reference; observation is itself a recorded event (every op / sparse / only at the end) so that lazily maintained state cannot hide behind the checks; sampling, not proof.",
+    "C13": ("e3", "Seeded search over histories of list operations on live AnnealResults objects (empty operands, self-arguments, ties, exact values beyond 2^53, removal of the current best, one-shot and failing iterables) against a plain-list reference; observation is itself a recorded event (every op / sparse / only at the end) so that lazily maintained state cannot hide behind the checks; sampling, not proof.",
             "Trusts the plain-list reference model and the function tables of the harness; histories are <= 60 ops on <= 3 live collections of <= 12 elements.", "DESIGN.md §3.3, §4 C13"),
-    "C14": ("e1", "Bookkeeping invariants (variables/degree/num_binary_variables upper bounds, mapping bijection, refresh exactness, label discipline of enumerated and reduced forms, ancilla-name uniqueness) checked after every edit of seeded histories on every model type, including zero assignments, cancellations and copies.",
+    "C14": ("e1", "Bookkeeping invariants (variables/degree/num_binary_variables upper bounds, mapping bijection, refresh exactness, label discipline of enumerated and reduced forms, ancilla-name uniqueness) checked after every edit of seeded histories on every model type, including zero assignments, cancellations, copies and callers scribbling over everything the accessors handed out.",
             "Trusts RefPoly and the snapshot reader (dict.items bypassing model accessors).", "DESIGN.md §3.1, §4 C14"),
     "C17": ("e4", "The E4 call histories executed first against a red-zone/poisoning allocator build (heap overflow, invalid/double free, leak across a verbatim repeat, poison showing up in results, interpreter crash) and then against an ASan+UBSan build of the repository's unmodified C sources, including raw generator words a real stream emits once in 2^32 draws and models of up to 1.2 million spins; a sanitizer report or crash is the violation.",
             "Trusts ASan/UBSan and the shim allocator; signed overflow of i*len_state+j needs >= 2^31 elements and is out of reach; allocation failure is not injected.", "DESIGN.md §3.4, §4 C17"),
